@@ -64,3 +64,9 @@ def nfa(payload):
     import regex2nfa
     n = regex2nfa.main(payload["out"])
     return {"extractors": n}
+
+
+def ci_strings(payload):
+    """filter strings of the case-insensitive extractors: [[extractor index (0-based), [strings]]]"""
+    from eyecite.tokenizers import EXTRACTORS
+    return [[i, sorted(e.strings)] for i, e in enumerate(EXTRACTORS) if e.flags & re.I and e.strings]
